@@ -13,6 +13,8 @@ func init() { register("C15", "exploration", runC15) }
 
 var (
 	c15SrcNames  = []string{"s1", "s2", "dir/s3", "s 4", "s.5", "empty"}
+	// names that contain the API's own verbs (the client percent-encodes object names, so the URLs are unambiguous)
+	c15VerbNames = []string{"docker/compose.yaml", "a/compose", "x/rewriteTo/b/y/o/z", "compose"}
 	c15DstNames  = []string{"out", "dir/out.bin", "a b c", "x..y", ".dot", "dir.d/sub dir/o", "ä/ö", "deep/er/est/out"}
 	c15CopyNames = []string{"copy", "dir/copy", "x/o/y", "o/o/o", "a/o/b/o/c", "a b", "a..b", "ü/ñ.txt", "p/o", "weird/o/.x y"}
 	// parts of different sizes that the append scenario adds to an object and to its copy
@@ -112,7 +114,7 @@ func c15Case(run *common.Run, srv *drive.Server, idx int) {
 	}
 	// The destination candidates of this case are fixed up front so that every dump reads the same name set
 	// (sources, candidates, every "/"-prefix of a candidate: a truncated or mangled destination shows up there).
-	dstCands := append(append([]string(nil), c15CopyNames...), c15DstNames...)
+	dstCands := append(append(append([]string(nil), c15CopyNames...), c15DstNames...), c15VerbNames...)
 	common.Shuffle(r, dstCands)
 	dstCands = dstCands[:5]
 	for _, b := range []string{b1, b2} {
